@@ -10,7 +10,7 @@ pub fn prop() -> Prop {
     Prop {
         id: "C09", title: "User-mode code cannot touch memory or state outside user space", level: "exploration",
         rule: "Phase 0 (complete matrix): for every access kind {fetch by fall-through, BR, JMP, JSR, JSRR, RET; LD; LDR; LDI pointer; LDI target; ST; STR; STI pointer; STI target; RTI; TRAP} x every boundary target \
-               {x0000, x0001, x01FF, x0200, x2FFE, x2FFF, x3000, x3001, xFDFE, xFDFF, xFE00, xFE02, xFE04, xFE06, xFE10, xFFFC, xFFFE, xFFFF} (where the addressing mode can reach it) x {virtual, real traps}, a user-mode machine is built so \
+               {x0000, x0001, x01FF, x0200, x2FFE, x2FFF, x3000, x3001, xFDFE, xFDFF, xFE00, xFE02, xFE04, xFE06, xFE10, xFFFC, xFFFE, xFFFF} (where the addressing mode can reach it) x {virtual, real traps} x {strict off, on}, a user-mode machine is built so \
                that the instruction aims at the target; keyboard with queued input, display and a recording device on xFE10/xFE12 are attached. Legal targets must agree with the reference machine. Illegal ones must give AccessViolation / \
                PrivilegeViolation with prefetch_pc() = the instruction's address (virtual) or enter the OS handler through x0102/x0100 in supervisor mode with the old PSR on the supervisor stack (real); the target word, keyboard queue, \
                display and device log must be unchanged and the access observer must show no access outside x3000-xFDFF beyond the exception entry's own stack/vector accesses. \
@@ -67,11 +67,13 @@ fn build(p: &mut Pair, kind: &str, t: u16, variant: u64) -> Option<(u16, usize, 
     }
 }
 
-fn one_case(ctx: &mut Ctx, kind: &str, t: u16, real: bool, variant: u64) {
+fn one_case(ctx: &mut Ctx, kind: &str, t: u16, real: bool, variant: u64, strict: bool) {
     let kbd = [0x41u8, 0x42, 0x43];
     let mut p = Pair::new(real, false, false, 0x0F0F, Some(&kbd), true);
     let rec = Recorder::new(7);
     p.sim.device_handler.add_device(rec.clone(), &[0xFE10, 0xFE12]).expect("recorder");
+    // strict mode must not weaken the protection (all words and registers are initialized here, so it adds no errors of its own)
+    p.sim.flags.strict = strict;
     p.set_psr(0x8002);
     p.set_saved_sp(0x2F00);
     p.set_reg(6, 0xF000);
@@ -81,7 +83,7 @@ fn one_case(ctx: &mut Ctx, kind: &str, t: u16, real: bool, variant: u64) {
     let tag = if real { "real" } else { "virtual" };
     let illegal = match kind { "RTI" => true, "TRAP" => false, _ => !user(probe) };
     if illegal { ctx.nontrivial(crate::rng::hash_bytes(format!("{kind}{t}{real}").as_bytes())); }
-    let case = || Json::obj().set("kind", kind).set("target", format!("x{t:04X}")).set("real_traps", real).set("variant", variant);
+    let case = || Json::obj().set("kind", kind).set("target", format!("x{t:04X}")).set("real_traps", real).set("variant", variant).set("strict", strict);
     let before: Vec<u16> = (0..=0xFFFFu16).map(|a| p.sim.mem[a].get()).collect();
     let mut last = (Ok(()), Outcome::Ok);
     let mut nonuser_seen: Vec<u16> = vec![];
@@ -137,12 +139,14 @@ fn one_case(ctx: &mut Ctx, kind: &str, t: u16, real: bool, variant: u64) {
 
 fn run(ctx: &mut Ctx) {
     // phase 0: the matrix (4 variants each)
-    let total = (KINDS.len() * TARGETS.len() * 2 * 4) as u64;
+    let total = (KINDS.len() * TARGETS.len() * 2 * 4 * 2) as u64;
     ctx.cases(0, total, |ctx, _rng, i| {
+        let strict = i % 2 == 1; let i = i / 2;
         let variant = i % 4; let i = i / 4;
         let real = i % 2 == 1; let i = i / 2;
         let t = TARGETS[(i % TARGETS.len() as u64) as usize]; let k = KINDS[(i / TARGETS.len() as u64) as usize];
-        one_case(ctx, k, t, real, variant);
+        one_case(ctx, k, t, real, variant, strict);
+        if strict { ctx.count("matrix.strict-cases"); }
     });
     // phase 1: random user-mode steps under the access-set invariant
     let n = ctx.tier.pick(5_000, 500_000);
